@@ -38,7 +38,7 @@ def relevance(prefixes):
     return rel
 
 
-def replay_behaviour(digital_rf, root, beh, real, rng, seed, name, dtype=None):
+def replay_behaviour(digital_rf, root, beh, real, rng, seed, name, dtype=None, cdriver=None):
     """execute a TLC behaviour of MCDrfChannel (sim scope) on the real writer/reader"""
     c0 = tlc.tla_to_py(beh[0][1]["cfg"])
     mode, nd = c0["mode"], c0["nd"]
@@ -53,7 +53,10 @@ def replay_behaviour(digital_rf, root, beh, real, rng, seed, name, dtype=None):
         shutil.rmtree(root)
     os.makedirs(root)
     p1 = cc.params()
-    ch = cd.Channel(digital_rf, root, cc, [p1, cg.mismatch_params(rng, p1)])
+    if cdriver:
+        ch = cd.CChannel(digital_rf, root, cc, [p1, cg.mismatch_params(rng, p1)], cdriver)
+    else:
+        ch = cd.Channel(digital_rf, root, cc, [p1, cg.mismatch_params(rng, p1)])
     is_open = False
     touched = set()
     for act, st in beh[1:]:
@@ -90,7 +93,7 @@ def replay_behaviour(digital_rf, root, beh, real, rng, seed, name, dtype=None):
     return sc, recs, cc
 
 
-def e2(ctx, digital_rf, nbeh, depth, dtype=None):
+def e2(ctx, digital_rf, nbeh, depth, dtype=None, cdriver=None, capi_every=0):
     behs, cmd = tlc.simulate("MCDrfChannel", "MCDrfChannel_sim.cfg", ctx.work, num=nbeh, depth=depth, seed=ctx.seed + 7)
     ctx.extra["simulate_cmd"] = cmd
     scen, recs = [], []
@@ -98,16 +101,20 @@ def e2(ctx, digital_rf, nbeh, depth, dtype=None):
         if len(beh) < 2:
             continue
         real = REALISATIONS[i % len(REALISATIONS)]
-        sc, rr, cc = replay_behaviour(digital_rf, os.path.join(ctx.work, "chan"), beh, real, ctx.rng, ctx.seed * 7919 + i, "sim%d" % i, dtype)
+        use_c = cdriver if (capi_every and i % capi_every == capi_every - 1) else None
+        sc, rr, cc = replay_behaviour(digital_rf, os.path.join(ctx.work, "chan"), beh, real, ctx.rng, ctx.seed * 7919 + i,
+                                      "sim%d%s" % (i, "-capi" if use_c else ""), dtype, cdriver=use_c)
         scen.append(sc)
         recs.append((cc, rr))
     return scen, recs
 
 
-def e3(ctx, digital_rf, n, **kw):
+def e3(ctx, digital_rf, n, cdriver=None, capi_every=0, **kw):
     scen, recs = [], []
     for i in range(n):
-        sc, rr, cc = cg.run_random(digital_rf, os.path.join(ctx.work, "chan"), ctx.rng, ctx.seed * 104729 + i, "rand%d" % i, **kw)
+        use_c = cdriver if (capi_every and i % capi_every == capi_every - 1) else None
+        sc, rr, cc = cg.run_random(digital_rf, os.path.join(ctx.work, "chan"), ctx.rng, ctx.seed * 104729 + i,
+                                   "rand%d%s" % (i, "-capi" if use_c else ""), cdriver=use_c, **kw)
         scen.append(sc)
         recs.append((cc, rr))
     return scen, recs
@@ -130,14 +137,23 @@ def account(ctx, scen, nsim, what):
             {k: v for k, v in e.items() if k not in ("newf",)} for e in s["events"][:5]]})
 
 
-def run(ctx, prefixes, nsim, nrand, what, sim_depth=12, dtype=None, witnesses=WITNESSES, post=None, **genkw):
+def run(ctx, prefixes, nsim, nrand, what, sim_depth=12, dtype=None, witnesses=WITNESSES, post=None, capi_every=0, **genkw):
     e1(ctx, witnesses=witnesses)
     ctx.stage()
     import digital_rf
 
+    cdriver = None
+    if capi_every:
+        from .. import stage as stage_mod
+        try:
+            cdriver = stage_mod.build_cdriver(ctx.work)
+        except stage_mod.BuildError as e:
+            raise Machinery(str(e))
+        ctx.assumptions.append("C API histories run in a replay driver compiled from c/lib/rf_write_hdf5.c with -fsanitize=address,undefined")
     with quiet_stderr():
-        s1, r1 = e2(ctx, digital_rf, nsim, sim_depth, dtype)
-        s2, r2 = e3(ctx, digital_rf, nrand, **genkw)
+        s1, r1 = e2(ctx, digital_rf, nsim, sim_depth, dtype, cdriver=cdriver, capi_every=capi_every)
+        s2, r2 = e3(ctx, digital_rf, nrand, cdriver=cdriver, capi_every=capi_every, **genkw)
+    ctx.extra["c_api_histories"] = sum(1 for s in s1 + s2 if s["name"].endswith("-capi"))
     scen = s1 + s2
     account(ctx, scen, len(s1), what)
     ctx.validate("DrfChannelTrace", "DrfChannelTrace.cfg", scen, label="channel history", relevant=relevance(prefixes))
